@@ -1,70 +1,54 @@
 #!/usr/bin/env python3
 """Self-test of the checkers, both ways (never used by a registered check):
 
-  selftest.py silent [patch ...]   every behaviour-preserving patch under selftest/silent/*.diff is applied to /repo, ALL claimed
-                                   checks are run (quick tier, in parallel) and must exit 0 without a VIOLATION line; the patch is reverted.
-  selftest.py fire   [seed ...]    = tools/catch_matrix.py (every seeded mutation must make its property's check exit 1)
-
-Refuses to start when /repo has local modifications.  Results: selftest/SILENT.json.
+  selftest.py silent [--jobs N] [patch ...]   every behaviour-preserving patch under selftest/silent/*.diff is applied in a scratch worktree
+                                              (tools/pool.py), ALL claimed checks are run (quick tier) and must exit 0; results: selftest/SILENT.json
+  selftest.py fire   [...]                    = tools/catch_matrix.py (every seeded mutation must make its property's check exit 1)
 """
-import json, os, subprocess, sys, glob
+import json, os, sys, glob
 from concurrent.futures import ThreadPoolExecutor
-
-V = "/verif"
-R = "/repo"
-
-
-def sh(cmd, cwd=None):
-    r = subprocess.run(cmd, shell=True, cwd=cwd, stdout=subprocess.PIPE, stderr=subprocess.STDOUT, text=True)
-    return r.returncode, r.stdout
+sys.path.insert(0, os.path.dirname(os.path.abspath(__file__)))
+from pool import Pool, V
 
 
 def claimed():
-    m = json.load(open(V + "/MANIFEST.json"))
-    return [c["property_id"] for c in m["checks"]]
-
-
-def run_check(p):
-    rc, out = sh("./verif check %s --tier quick" % p, cwd=V)
-    lines = [l.strip()[:400] for l in out.splitlines() if l.startswith("VIOLATION") or l.rstrip().endswith("]") or "analysis broken" in l]
-    return p, rc, lines[:6]
+    return [c["property_id"] for c in json.load(open(V + "/MANIFEST.json"))["checks"]]
 
 
 def main():
     mode = sys.argv[1]
+    args = sys.argv[2:]
     if mode == "fire":
-        os.execv(sys.executable, [sys.executable, V + "/tools/catch_matrix.py"] + sys.argv[2:])
+        os.execv(sys.executable, [sys.executable, V + "/tools/catch_matrix.py"] + args)
     assert mode == "silent"
-    rc, out = sh("git status --porcelain -- include development test", cwd=R)
-    if out.strip():
-        sys.exit("refusing: /repo has local modifications:\n" + out)
-    patches = sys.argv[2:] or sorted(os.path.basename(p) for p in glob.glob(V + "/selftest/silent/*.diff"))
+    jobs, keep = 6, False
+    if "--jobs" in args:
+        i = args.index("--jobs"); jobs = int(args[i + 1]); del args[i:i + 2]
+    if "--keep-pool" in args:
+        args.remove("--keep-pool"); keep = True
+    patches = args or sorted(os.path.basename(p) for p in glob.glob(V + "/selftest/silent/*.diff"))
     path = V + "/selftest/SILENT.json"
     res = json.load(open(path)) if os.path.exists(path) else {}
     props = claimed()
-    head = sh("git rev-parse --short HEAD", cwd=R)[1].strip()
+    pool = Pool(min(jobs, len(patches)))
     bad = 0
-    for name in patches:
-        f = V + "/selftest/silent/" + name
-        rc, out = sh("git apply %s" % f, cwd=R)
-        if rc != 0:
-            res[name] = {"error": "does not apply to %s: %s" % (head, out[:200])}
-            print(name, "DOES NOT APPLY", flush=True)
-            continue
-        try:
-            # one check first so that the fact cache for this tree is filled once, then the rest in parallel
-            first = run_check(props[0])
-            with ThreadPoolExecutor(6) as ex:
-                rest = list(ex.map(run_check, props[1:]))
-        finally:
-            sh("git checkout -- include development test", cwd=R)
-        alarms = {p: {"exit": rc, "lines": lines} for p, rc, lines in [first] + rest if rc != 0}
-        res[name] = {"repo_head": head, "checks_run": len(props), "alarms": alarms}
-        bad += bool(alarms)
-        print(name, "silent" if not alarms else "ALARM " + " ".join("%s(exit %d)" % (p, a["exit"]) for p, a in sorted(alarms.items())), flush=True)
-        json.dump(res, open(path, "w"), indent=1, sort_keys=True)
-    rc, out = sh("git status --porcelain -- include development test", cwd=R)
-    assert not out.strip(), out
+    try:
+        with ThreadPoolExecutor(pool.n) as ex:
+            for name, r in ex.map(lambda n: (n, pool.run(V + "/selftest/silent/" + n, props)), patches):
+                if "error" in r:
+                    res[name] = r
+                    print(name, "ERROR", r["error"][:200], flush=True)
+                    bad += 1
+                    continue
+                alarms = {p: x for p, x in r.items() if x["exit"] != 0}
+                res[name] = {"repo_head": pool.head[:7], "checks_run": len(props), "alarms": alarms}
+                bad += bool(alarms)
+                print(name, "silent" if not alarms else "ALARM " + " ".join("%s(exit %d: %s)" % (p, a["exit"], ",".join(a["rules"])) for p, a in sorted(alarms.items())),
+                      flush=True)
+                json.dump(res, open(path, "w"), indent=1, sort_keys=True)
+    finally:
+        if not keep:
+            pool.remove()
     sys.exit(1 if bad else 0)
 
 
